@@ -6,6 +6,7 @@ import (
 	"encoding/hex"
 	"fmt"
 	"reflect"
+	"sync"
 
 	"verifharness/core"
 	"verifharness/gen"
@@ -18,6 +19,74 @@ func init() { register("C01", runC01) }
 func runC01(c *core.Ctx) {
 	unit := c.N(300, 6000)
 	parserCases(c, unit, nil, func(pc pcase) { checkC01(c, pc) })
+	// eight accepted values of one kind re-serialised at the same time, one goroutine each: every
+	// serialisation is the bytes THAT value was read from (a serialiser assembling its output in
+	// scratch space shared between calls mixes values up only when calls overlap)
+	var comp []lib.Parser
+	for _, p := range lib.Parsers() {
+		if !trivialKind(p.Kind) && p.Kind != "string" {
+			comp = append(comp, p)
+		}
+	}
+	c.Job("concurrent-serialisation", len(comp)*c.N(16, 160), func(i int, r *core.Rand) {
+		p := comp[i%len(comp)]
+		const G = 8
+		type item struct {
+			v        reflect.Value
+			consumed []byte
+		}
+		var items []item
+		for tries := 0; tries < 60 && len(items) < G; tries++ {
+			cs := gen.WellFormed(p.Kind, p.Arg, r)
+			out, panicked, _, _ := callParser(c, p, cs.Bytes)
+			if panicked || !out.Accepted || out.Val == nil || len(out.Ser) == 0 {
+				continue
+			}
+			v := reflect.ValueOf(out.Val)
+			if isSliceType(v) {
+				return
+			}
+			if b, ok := reserialise(v); !ok || !bytes.Equal(b, out.Ser) {
+				continue
+			}
+			items = append(items, item{v, append([]byte{}, out.Ser...)})
+		}
+		if len(items) < 2 {
+			return
+		}
+		c.Eval(1)
+		c.Nontrivial([]byte("concurrent-serialisation"), []byte(p.ID()), items[0].consumed)
+		bad := make([]string, len(items))
+		var wg sync.WaitGroup
+		start := make(chan struct{})
+		for g := range items {
+			g := g
+			wg.Add(1)
+			go func() {
+				defer wg.Done()
+				defer func() {
+					if pv := recover(); pv != nil {
+						bad[g] = fmt.Sprint("panic: ", pv)
+					}
+				}()
+				<-start
+				for k := 0; k < 120 && bad[g] == ""; k++ {
+					if b, ok := reserialise(items[g].v); !ok || !bytes.Equal(b, items[g].consumed) {
+						bad[g] = describeDiff(items[g].consumed, b)
+					}
+				}
+			}()
+		}
+		close(start)
+		wg.Wait()
+		for g := range bad {
+			if bad[g] != "" {
+				c.Violate(p.Name, "bytes-differ", gen.Shape{"class": fmt.Sprintf("%d values of this kind re-serialised concurrently, one goroutine each", len(items))}, items[g].consumed, bad[g])
+				return
+			}
+		}
+		c.Bucket("concurrent-serialisation-ok/" + p.Kind)
+	})
 	c01Floors(c)
 }
 
@@ -84,7 +153,9 @@ func checkC01(c *core.Ctx, pc pcase) {
 	// serialising again gives the same bytes, also after the caller has overwritten the first
 	// serialisation it was handed (a serialiser must not hand out its own storage)
 	// (types that *are* their bytes — Integer, I2PString — legitimately share that storage)
-	if v := reflect.ValueOf(out.Val); out.Val != nil && len(out.Ser) > 0 && !isBytesType(v) {
+	// (array types - Lease, Lease2, Hash - are values: their serialiser works on a copy, so they are
+	// included; only slice types are the bytes they return)
+	if v := reflect.ValueOf(out.Val); out.Val != nil && len(out.Ser) > 0 && !isSliceType(v) {
 		for i := range out.Ser {
 			out.Ser[i] ^= 0xA5
 		}
@@ -133,6 +204,25 @@ func checkC01(c *core.Ctx, pc pcase) {
 							fmt.Sprintf("the same input parsed again after %d bytes of another parsed value were changed through its public surface: accepted=%v, %s", n, out3.Accepted, describeDiff(consumed, out3.Ser)))
 						return
 					}
+					// ... the same with the other value being a second parse of these very bytes (same kind,
+					// same shape: what two values of one shape might share, they share)
+					if out4, p4, _, _ := callParser(c, pc.p, append([]byte{}, pc.in...)); !p4 && out4.Accepted && out4.Val != nil && reflect.ValueOf(out4.Val).Kind() == reflect.Ptr {
+						n4 := 0
+						func() {
+							defer func() { _ = recover() }()
+							n4 = lib.ScribbleExported(out4.Val) + lib.ScribbleViaAccessors(out4.Val)
+						}()
+						if after, ok := reserialise(v); n4 > 0 && ok && !bytes.Equal(after, consumed) {
+							c.Violate(pc.p.Name, "serialisation-changed-when-another-value-was-edited", sh, pc.in,
+								fmt.Sprintf("after %d bytes of a second value parsed from the same input were changed through its public surface: %s", n4, describeDiff(consumed, after)))
+							return
+						}
+						if out5, p5, _, _ := callParser(c, pc.p, pc.in); n4 > 0 && !p5 && (!out5.Accepted || !bytes.Equal(out5.Ser, consumed)) {
+							c.Violate(pc.p.Name, "parse-differs-after-another-value-was-edited", sh, pc.in,
+								fmt.Sprintf("the same input parsed again after a value parsed from it had been edited: accepted=%v, %s", out5.Accepted, describeDiff(consumed, out5.Ser)))
+							return
+						}
+					}
 					c.Bucket("independent-of-edits-to-another-value/" + pc.p.Kind)
 				}
 			}
@@ -151,6 +241,15 @@ func isBytesType(v reflect.Value) bool {
 		t = t.Elem()
 	}
 	return t.Kind() == reflect.Slice || t.Kind() == reflect.Array
+}
+
+// isSliceType: the value is a byte-slice type (or a pointer to one) - it IS the bytes it returns.
+func isSliceType(v reflect.Value) bool {
+	t := v.Type()
+	for t.Kind() == reflect.Ptr {
+		t = t.Elem()
+	}
+	return t.Kind() == reflect.Slice
 }
 
 // reserialise calls the value's serialiser again by reflection: Bytes() ([]byte) or
